@@ -337,6 +337,34 @@ def rule_histories(ctx, tci):
             ctx.check(ok, R, "selection.no-room%s[%s]" % (order, flabel), repo.find_method(compci, "add_note").where(),
                       "Composition.add_note(%s) to tracks [empty, 7/8 full] selected as %s" % (flabel, order), why)
 
+    # (g2c) room is judged in the track's own meter: a 3/4 bar with 5/8 used has no room for a quarter (a 4/4 bar would),
+    #       a 6/4 bar with 5/4 used has (a 4/4 bar would not)
+    for mlabel, meter, fill, fits in (("3/4", (3, 4), (2, 8), False), ("6/4", (6, 4), (1, 4), True), ("6/8", (6, 8), (4, 4, 8), False), ("5/4", (5, 4), (1,), True)):
+        def go_meter(it, meter=meter, fill=fill):
+            c = new(it, compci)
+            ts = [new(it, tci), new(it, tci)]
+            it.call_method(ts[1], "add_bar", [new(it, bci, "C", meter)], {}, None)
+            for v in fill:
+                it.call_method(ts[1], "add_notes", ["G", v], {}, None)
+            for t in ts:
+                it.call_method(c, "add_track", [t], {}, None)
+            c.attrs["selected_tracks"] = [0, 1]
+            before = [len(_flatten(t)[0]) for t in ts]
+            r = outcome(it, lambda: it.call_method(c, "add_note", ["C"], {}, None))
+            return r, before, [len(_flatten(t)[0]) for t in ts]
+        v, err = run1("room in %s" % mlabel, go_meter)
+        ok, why = err is None, err
+        if ok:
+            r, before, after = v
+            want = [before[0] + 1, before[1] + 1] if fits else before
+            if after != want:
+                ok, why = False, "a quarter %s the %s bar that holds %s, but the tracks go from %s to %s entries (expected %s)" % (
+                    "fits in" if fits else "does not fit in", mlabel, "+".join("1/%s" % x for x in fill), before, after, want)
+            elif r[0] == "return" and (r[1] is False) == fits:
+                ok, why = False, "the request reports %r although the note %s" % (r[1], "was placed" if fits else "was refused")
+        ctx.check(ok, R, "selection.room[%s]" % mlabel, repo.find_method(compci, "add_note").where(),
+                  "Composition.add_note('C') to [empty track, track whose %s bar holds %s]" % (mlabel, "+".join("1/%s" % x for x in fill)), why)
+
     # (g3) every form a track takes is taken by the composition for each selected track that has an instrument
     for flabel, mk, pitches in (("'C'", lambda it: "C", (48,)), ("['C', 'E']", lambda it: ["C", "E"], (48, 52)), ("[['C', 5]]", lambda it: [["C", 5]], (60,)),
                                 ("Note('D', 4)", lambda it: new(it, noteci, "D", 4), (50,)), ("NoteContainer(['C', 'G'])", lambda it: new(it, nci, ["C", "G"]), (48, 55))):
@@ -377,10 +405,30 @@ def rule_histories(ctx, tci):
         res["compositions, equal tracks"] = outcome(it, lambda: it.compare(ast.Eq, k1, k2))
         res["compositions, different tracks"] = outcome(it, lambda: it.compare(ast.Eq, k1, k3))
         res["compositions != , equal tracks"] = outcome(it, lambda: it.compare(ast.NotEq, k1, k2))
+        # one composition's tracks are the first tracks of the other: not equal, in either order; nor is an empty one
+        k4 = new(it, compci)
+        it.call_method(k4, "add_track", [c], {}, None)
+        it.call_method(k4, "add_track", [b], {}, None)
+        res["compositions, one more track"] = outcome(it, lambda: it.compare(ast.Eq, k2, k4))
+        res["compositions, one track fewer"] = outcome(it, lambda: it.compare(ast.Eq, k4, k2))
+        res["compositions !=, one more track"] = outcome(it, lambda: it.compare(ast.NotEq, k2, k4))
+        res["empty and not empty"] = outcome(it, lambda: it.compare(ast.Eq, new(it, compci), k1))
+        res["not empty and empty"] = outcome(it, lambda: it.compare(ast.Eq, k1, new(it, compci)))
+        # tracks: one bar more
+        d = new(it, tci)
+        for _ in range(5):
+            it.call_method(d, "add_notes", ["C", 4], {}, None)
+        e = new(it, tci)
+        for _ in range(4):
+            it.call_method(e, "add_notes", ["C", 4], {}, None)
+        res["tracks, one bar more"] = outcome(it, lambda: it.compare(ast.Eq, e, d))
+        res["tracks, one bar fewer"] = outcome(it, lambda: it.compare(ast.Eq, d, e))
         return res
     v, err = run1("equality", go_eq)
     wants = {"note==rest": False, "rest==note": False, "note!=rest": True, "same content": True, "empty compositions": True,
-             "compositions, equal tracks": True, "compositions, different tracks": False, "compositions != , equal tracks": False}
+             "compositions, equal tracks": True, "compositions, different tracks": False, "compositions != , equal tracks": False,
+             "compositions, one more track": False, "compositions, one track fewer": False, "compositions !=, one more track": True,
+             "empty and not empty": False, "not empty and empty": False, "tracks, one bar more": False, "tracks, one bar fewer": False}
     for k, w in wants.items():
         ok = err is None and v.get(k) == ("return", w)
         ctx.check(ok, R, "equality[%s]" % k, repo.find_method(tci, "__eq__").where(), "== on %s" % k,
